@@ -232,6 +232,19 @@ def renameTargets (steps : List Step) : List (String × String) :=
 /-- the values of column `c` over the rows of table `t` (rowid order) -/
 def columnOf (d : Data) (t c : String) : List (Option Cell) := (rowsOf d t).map (cellOf · c)
 
+/-- under which name the value a row holds at column `c` of table `t` is found after a (successful) statement;
+`none` = the value is gone -/
+def Stmt.track (t : String) : Stmt → String → Option String
+  | .renameColumn t' a b, c => if t' = t ∧ c = a then some b else some c
+  | .dropColumn t' c', c => if t' = t ∧ c = c' then none else some c
+  | .addColumn _ _, c => some c
+  | .createTable _ _, c => some c
+
+/-- … after the successful statements of a log, in order -/
+def logTrack (t : String) : Log → String → Option String
+  | [], c => some c
+  | (st, ok) :: rest, c => if ok then (st.track t c).bind (logTrack t rest) else logTrack t rest c
+
 /-- one row per table holding, in every column, the column's own name (sample content for the examples) -/
 def sampleData (s : Schema) : Data :=
   s.map fun tc => { name := tc.1, cols := tc.2, rows := [tc.2.map fun c => (c, some c)] }
